@@ -412,3 +412,36 @@ func (b *Broker) heldFor(c *Conn, head byte) bool {
 	}
 	return false
 }
+
+// HeldReply is a withheld reply, as handed out by TakeHeld.
+type HeldReply struct {
+	Conn  *Conn
+	Bytes []byte
+	Note  string
+}
+
+// TakeHeld removes and returns the withheld replies.
+func (b *Broker) TakeHeld() []HeldReply {
+	b.w.Mu.Lock()
+	defer b.w.Mu.Unlock()
+	var out []HeldReply
+	for _, h := range b.Held {
+		out = append(out, HeldReply{h.c, h.b, h.note})
+	}
+	b.Held = nil
+	return out
+}
+
+// HeldCount tells how many replies are withheld.
+func (b *Broker) HeldCount() int {
+	b.w.Mu.Lock()
+	defer b.w.Mu.Unlock()
+	return len(b.Held)
+}
+
+// Alive tells whether bytes can still be delivered on the connection.
+func (c *Conn) Alive() bool {
+	c.w.Mu.Lock()
+	defer c.w.Mu.Unlock()
+	return !c.closed && c.broken == nil && c.InEnd < 0
+}
